@@ -108,6 +108,14 @@ func checkRegexpSource(r *Run, prog *Program, a *Anchors, pfx string) {
 				arg := ev.Args[0]
 				// *(&(*(&X.Value)).Raw): the Raw text of some match expression's value
 				isRaw := arg.K == sLoad && arg.A.K == sFieldAddr && arg.A.Str == "Raw" && arg.A.A != nil && arg.A.A.K == sLoad && arg.A.A.A.K == sFieldAddr && arg.A.A.A.Str == "Value"
+				if !isRaw && arg.K == sLoad && arg.A.K == sFieldAddr && arg.A.Str == "Raw" {
+					// the Raw field of a match value that reached a helper as a parameter
+					if fa, ok := arg.A.V.(*ssa.FieldAddr); ok {
+						if pt, ok := fa.X.Type().Underlying().(*types.Pointer); ok && namedIs(pt.Elem(), grammarPath, "MatchValue") {
+							isRaw = true
+						}
+					}
+				}
 				if !isRaw {
 					si.okArg = false
 					si.argDesc = shortKey(arg)
